@@ -86,6 +86,35 @@ fn h_none() -> isize {
     7
 }
 
+// ---- an owned host object (Custom type) with &self / &mut self methods that take further arguments
+#[derive(Clone)]
+struct HostCounter {
+    n: isize,
+}
+impl steel::rvals::Custom for HostCounter {}
+impl HostCounter {
+    fn new() -> Self {
+        HostCounter { n: 0 }
+    }
+    fn add(&mut self, k: isize) -> isize {
+        record(format!("HostCounter::add({k})"));
+        self.n = self.n.wrapping_add(k);
+        self.n
+    }
+    fn add2(&mut self, a: isize, b: String) -> isize {
+        record(format!("HostCounter::add2({a},{b:?})"));
+        self.n
+    }
+    fn get(&self) -> isize {
+        record("HostCounter::get()".to_string());
+        self.n
+    }
+    fn scale(&self, a: isize, b: isize) -> isize {
+        record(format!("HostCounter::scale({a},{b})"));
+        self.n.wrapping_mul(a).wrapping_add(b)
+    }
+}
+
 // ---- a host object lent by reference
 const MAGIC: u64 = 0x1EA7_BEEF_CAFE_F00D;
 struct HostObj {
@@ -265,6 +294,13 @@ fn body(engine: &mut Engine, chan: &mut std::fs::File, seed: u64, n: usize) {
     engine.register_fn("h-none", h_none);
     engine.register_fn("host-get", HostObj::get);
     engine.register_fn("host-bump", HostObj::bump);
+    engine.register_type::<HostCounter>("HostCounter?");
+    engine.register_fn("counter-new", HostCounter::new);
+    engine.register_fn("counter-add!", HostCounter::add);
+    engine.register_fn("counter-add2!", HostCounter::add2);
+    engine.register_fn("counter-get", HostCounter::get);
+    engine.register_fn("counter-scale", HostCounter::scale);
+    let _ = engine.run("(define hc (counter-new))".to_string());
     engine.register_value("*lent*", SteelVal::Void);
     engine.register_value("stash", SteelVal::Void);
 
@@ -414,7 +450,16 @@ fn body(engine: &mut Engine, chan: &mut std::fs::File, seed: u64, n: usize) {
     call(engine, chan, "(h-u8 255)", Some("h_u8(255)"));
     call(engine, chan, "(h-bool #f)", Some("h_bool(false)"));
     call(engine, chan, "(h-f64 2.5)", Some("h_f64(2.5)"));
+    call(engine, chan, "(counter-add! hc 2)", Some("HostCounter::add(2)"));
+    call(engine, chan, "(counter-add2! hc 3 \"s\")", Some("HostCounter::add2(3,\"s\")"));
+    call(engine, chan, "(counter-get hc)", Some("HostCounter::get()"));
+    call(engine, chan, "(counter-scale hc 2 3)", Some("HostCounter::scale(2,3)"));
+    call(engine, chan, "(apply counter-add! (list hc 4))", Some("HostCounter::add(4)"));
     for bad in [
+        "(counter-add! hc)", "(counter-add! hc 1 2)", "(counter-add! hc 1 2 3)", "(counter-add!)", "(counter-add! 5 1)", "(counter-add! hc \"1\")",
+        "(counter-add2! hc 1)", "(counter-add2! hc 1 \"s\" 3)", "(counter-add2! hc \"s\" 1)", "(apply counter-add! (list hc 1 2))",
+        "(counter-get)", "(counter-get hc 1)", "(counter-get 7)", "(counter-scale hc 1)", "(counter-scale hc 1 2 3)", "(counter-scale hc 1 2.5)",
+        "(counter-new 1)",
         "(h-add 1)", "(h-add)", "(h-add 1 2 3)", "(h-add 1 \"2\")", "(h-add 1.5 2)", "(h-add 1/2 2)", "(h-add (expt 2 70) 1)", "(h-add 'a 1)",
         "(apply h-add (list 1))", "(apply h-add (list 1 2 3))", "(map h-add (list 1))", "(h-none 1)",
         "(h-u8 256)", "(h-u8 -1)", "(h-u8 1.0)", "(h-u8 (expt 2 70))", "(h-i32 2147483648)", "(h-i32 (expt 2 40))", "(h-i32 -2147483649)",
